@@ -55,10 +55,12 @@ inline DocCase decode_doc(Src &s, const DocOpts &o) {
     uint8_t fl = s.u8();
     c.array_root = o.force_object_root ? false : (fl & 1);
     c.depth = pick_depth(s);
+    GenCfg cfg = o.cfg;
+    if ((fl & 0xf0) == 0xf0) cfg.big = true;  // one case in 16: payloads and names up to 70000 bytes (16-bit boundary classes)
     switch (c.mode) {
     case DM_TREE:
     case DM_MUT: {
-        c.tree = gen_tree(s, o.cfg, c.array_root);
+        c.tree = gen_tree(s, cfg, c.array_root);
         c.have_tree = true;
         c.doc = ref::encode(c.tree);
         if (c.mode == DM_MUT) {
